@@ -66,9 +66,15 @@ ExtVals == << <<>>,
 Unsupported == << [t |-> "hs", m |-> [t |-> "ServerDone", data |-> <<>>]], [t |-> "hs", m |-> [t |-> "Certificate", chain |-> <<>>]],
                   [t |-> "hs", m |-> [t |-> "KeyUpdate", v |-> 0]], [t |-> "hs", m |-> [t |-> "NewSessionTicket", hint |-> <<0, 0>>, ticket |-> <<>>]],
                   [t |-> "alert", sev |-> 1, code |-> 0], [t |-> "app", blob |-> <<1>>], [t |-> "hb", hbt |-> 1, plen |-> 0, payload |-> <<>>] >>
+(* records whose single message the serializer does not support, under every record type (no shortcut may turn them into bytes) *)
+UnsupportedRec == Concat([q \in 1..Len(Unsupported) |->
+                    [c \in 1..4 |-> [ct |-> <<20, 21, 22, 23>>[c], ver |-> 771, len |-> 0, msgs |-> <<Unsupported[q]>>]]])
+                  \o << [ct |-> 20, ver |-> 771, len |-> 0, msgs |-> <<[t |-> "ccs"], Unsupported[5]>>],
+                        [ct |-> 22, ver |-> 771, len |-> 0, msgs |-> <<Hs(1), Unsupported[1]>>] >>
 UnsupportedExt == << [t |-> "Padding", tag |-> 21, data |-> <<0>>], [t |-> "Heartbeat", tag |-> 15, v |-> 1], [t |-> "Unknown", tag |-> 99, ty |-> 99, data |-> <<>>] >>
 
-N == NH + Len(RecVals) + Len(ExtVals) + Len(Unsupported) + Len(UnsupportedExt) + 1 + Len(FromBytes)
+NBase == NH + Len(RecVals) + Len(ExtVals) + Len(Unsupported) + Len(UnsupportedExt) + 1 + Len(FromBytes)
+N == NBase + Len(UnsupportedRec)
 Case(i) ==
   IF i <= NH THEN [kind |-> "hs", v |-> HsVals[i]]
   ELSE IF i <= NH + Len(RecVals) THEN [kind |-> "record", v |-> RecVals[i - NH]]
@@ -77,7 +83,8 @@ Case(i) ==
   ELSE IF i <= NH + Len(RecVals) + Len(ExtVals) + Len(Unsupported) + Len(UnsupportedExt)
        THEN [kind |-> "unsupported_ext", v |-> UnsupportedExt[i - NH - Len(RecVals) - Len(ExtVals) - Len(Unsupported)]]
   ELSE IF i = NH + Len(RecVals) + Len(ExtVals) + Len(Unsupported) + Len(UnsupportedExt) + 1 THEN [kind |-> "ccs_msg", v |-> [t |-> "ccs"]]
-  ELSE [kind |-> "from_bytes", v |-> FromBytes[i - (NH + Len(RecVals) + Len(ExtVals) + Len(Unsupported) + Len(UnsupportedExt) + 1)]]
+  ELSE IF i <= NBase THEN [kind |-> "from_bytes", v |-> FromBytes[i - (NH + Len(RecVals) + Len(ExtVals) + Len(Unsupported) + Len(UnsupportedExt) + 1)]]
+  ELSE [kind |-> "unsupported_record", v |-> UnsupportedRec[i - NBase]]
 
 VARIABLE i
 Init == i = Chunk + 1 /\ i <= N
